@@ -207,20 +207,24 @@ func deepEdges(fn *ssa.Function, res resolver, spec gspec, depth int) []Edge {
 					*guardCallSink = append(*guardCallSink, guardHit{c, "errnil"})
 				}
 			}
-			continue
 		}
-		if sig := h.Signature; sig.Results().Len() == 1 && isBoolType(sig.Results().At(0).Type()) {
+		// every bool result (a single `bool`, or the `ok` of a multi-value helper) is summarised for both outcomes
+		sig := h.Signature
+		for k := 0; k < sig.Results().Len(); k++ {
+			if !isBoolType(sig.Results().At(k).Type()) {
+				continue
+			}
 			done := false
 			for _, pol := range []string{"true", "false"} {
 				allProp := len(rets) > 0
 				for _, ret := range rets {
-					if !propagatesAs(ret, 0, pol) {
+					if !propagatesAs(ret, k, pol) {
 						allProp = false
 					}
 				}
 				if allProp {
-					es = append(es, passBool(c, 0, pol == "true")...)
-					if guardCallSink != nil {
+					es = append(es, passBool(c, k, pol == "true")...)
+					if guardCallSink != nil && sig.Results().Len() == 1 {
 						*guardCallSink = append(*guardCallSink, guardHit{c, pol})
 					}
 					done = true
@@ -232,7 +236,14 @@ func deepEdges(fn *ssa.Function, res resolver, spec gspec, depth int) []Edge {
 			for _, want := range []bool{true, false} {
 				ok, n := true, 0
 				for _, ret := range rets {
-					if !mayReturnBool(ret, want) {
+					vals, zero := resultVals(ret, k)
+					may := zero && !want
+					for _, v := range vals {
+						if bv, isC := boolConst(v); !isC || bv == want {
+							may = true
+						}
+					}
+					if !may {
 						continue
 					}
 					n++
@@ -241,8 +252,8 @@ func deepEdges(fn *ssa.Function, res resolver, spec gspec, depth int) []Edge {
 					}
 				}
 				if ok && n > 0 {
-					es = append(es, passBool(c, 0, want)...)
-					if guardCallSink != nil {
+					es = append(es, passBool(c, k, want)...)
+					if guardCallSink != nil && sig.Results().Len() == 1 {
 						*guardCallSink = append(*guardCallSink, guardHit{c, map[bool]string{true: "true", false: "false"}[want]})
 					}
 				}
